@@ -45,20 +45,22 @@ class C01Machine(Machine):
         "probe_equals_prefix", "probe_one_short", "split_delivery", "dup_rejected",
         "confluence_group", "chain_parts", "multi_char_delimiter", "non_bmp_probe_matched",
         "piece_carrier_canonical", "piece_carrier_synonym", "piece_carrier_via_uri",
-        "bulk_via_ctor", "bulk_via_epm", "bulk_via_priority", "bulk_via_reverse",
+        "bulk_via_ctor", "bulk_via_epm", "bulk_via_priority", "bulk_via_reverse", "large_owner_map",
     ]
 
     @classmethod
     def draw_config(cls, rng, tier):
         deep = tier == "thorough" and rng.random() < 0.3
         n_uri = rng.randint(3, 14) if not deep else rng.randint(10, 26)
+        large = rng.random() < (0.02 if tier == "quick" else 0.06)
         cfg = {
-            "max_ops": 40 if not deep else 90,
+            "max_ops": (40 if not deep else 90) if not large else 400,
             "deep": deep,
+            "large": large,
             "delimiter": rng.choice(tokens.DELIMITERS),
             "curie_pool": tokens.pick_pool(rng, tokens.CURIE_PREFIXES, tokens.RARE_CURIE_PREFIXES, 3, 10),
             "uri_pool": tokens.pick_pool(rng, tokens.URI_PREFIXES, tokens.RARE_URI_PREFIXES, n_uri, n_uri, rare_p=0.2),
-            "n_records": rng.randint(1, 8) if not deep else rng.randint(6, 14),
+            "n_records": (rng.randint(1, 8) if not deep else rng.randint(6, 14)) if not large else rng.randint(20, 45),
             "n_schedules": 3 if rng.random() < 0.25 else 1,
             "p_ctor_first": rng.choice([0.0, 0.3, 0.7]),
             "p_split": rng.choice([0.0, 0.3, 0.6]),
@@ -66,6 +68,10 @@ class C01Machine(Machine):
             "p_add_prefix": rng.choice([0.2, 0.5, 0.8]),
             "p_chain_parts": rng.choice([0.0, 0.0, 0.2]),
         }
+        if large:
+            cfg["curie_pool"] = cfg["curie_pool"] + tokens.synthetic_curie_prefixes(70)
+            cfg["uri_pool"] = cfg["uri_pool"] + tokens.synthetic_uri_prefixes(rng.randint(60, 110))
+            cfg["n_schedules"] = 1 if rng.random() < 0.7 else 2
         return cfg
 
     def __init__(self, config, known=frozenset()):
@@ -78,7 +84,10 @@ class C01Machine(Machine):
         self.owners = OwnerMap()
         self.delivered = []       # record dumps delivered so far (whole or in part)
         self.finals = []          # final answers per schedule
-        self.probes = tokens.uri_probes(config["uri_pool"])
+        if config.get("large"):
+            self.probes = tokens.uri_probes(config["uri_pool"], extra_tails=("1",), alphabet=("a", "/"))
+        else:
+            self.probes = tokens.uri_probes(config["uri_pool"])
         self.saw_nested = False
         self.saw_multi = False
         self.saw_incremental = False
@@ -357,6 +366,8 @@ class C01Machine(Machine):
     def _check(self, site):
         conv = self.conv
         owners = self.owners
+        if len(owners.owners) >= 40:
+            self.probe("large_owner_map")
         delim = conv.delimiter
         if len(delim) > 1:
             self.probe("multi_char_delimiter")
